@@ -164,7 +164,7 @@ func genElem(t *rapid.T, kind string) model.Elem {
 	panic("genElem " + kind)
 }
 
-const hostileChars = "\"\\/<>.[]'\x00\n\t\r\x7f\x1f *"
+const hostileChars = "\"\\/<>.[]'\x00\n\t\r\x7f\x1f *%%d"
 
 // genASCII draws a 7-bit string; every code 0..127 can occur.
 func genASCII(t *rapid.T, maxLen int) string {
@@ -252,7 +252,8 @@ func genTree(t *rapid.T, o treeOpts, nm *namer) *model.Node {
 	if !o.NoDeep && rapid.IntRange(0, 79).Draw(t, "deepChain") == 79 {
 		// dedicated deep-chain class
 		maxd := 300
-		if isThorough() {
+		if isThorough() && rapid.IntRange(0, 199).Draw(t, "veryDeep") == 199 {
+			// the library is quadratic in nesting depth (a 2000-deep chain costs tens of seconds): rare even in thorough
 			maxd = 2000
 		}
 		if o.DeepMax > 0 {
